@@ -9,7 +9,16 @@ import cffi
 from lib.vlib import worker_main
 
 ffi = cffi.FFI()
-ffi.cdef("struct c21s { long a; long b; };")
+ffi.cdef("struct c21s { long a; long b; }; struct c21v { int n; int tail[]; };")
+
+
+# (ctype, initializer the conversion rejects after the memory was obtained)
+REJECTED = [("long[4]", [1, 2, 3, 4, 5]),                 # too many items
+            ("long[4]", [1, "x"]),                        # wrongly typed element
+            ("struct c21s *", {"zz": 1}),                 # unknown field
+            ("int[2]", [1 << 40]),                        # out-of-range integer
+            ("struct c21v *", [1, [1 << 40]]),            # overflowing element in a var-sized tail
+            ("struct c21s *", [1, 2, 3])]                 # too many initializers for the struct
 
 
 class BA(bytearray):
@@ -97,6 +106,43 @@ class Run:
                 self.struct_of[pi] = gi
                 p.a = 1000 + pi
                 self.pattern[gi] = 1000 + pi
+            elif t == "ONewFail":
+                # rejected initialisers, default allocator: the cdata made before the conversion must not
+                # survive (each leaked cdata keeps one reference to its ctype)
+                import sys
+                ctname, init = REJECTED[op[1] % len(REJECTED)]
+                ct = ffi.typeof(ctname)
+                gc.collect()
+                before = sys.getrefcount(ct)
+                reps, ok = 25, 0
+                for _ in range(reps):
+                    try:
+                        ffi.new(ct, init)
+                        ok += 1
+                    except (TypeError, ValueError, OverflowError, IndexError, KeyError):
+                        pass
+                gc.collect()
+                res["ct_refs_delta"] = sys.getrefcount(ct) - before
+                res["reps"] = reps
+                if ok:
+                    res["unexpected_success"] = True
+            elif t == "OAllocNewFail":
+                wi = len(self.weak) + 1            # ids: the block from alloc(), then the wrapper
+                box = [wi]
+                A = self.make_allocator(box, op[3])
+                ctname, init = REJECTED[op[4] % len(REJECTED)]
+                try:
+                    A(ctname, init)
+                    res["unexpected_success"] = True
+                except (TypeError, ValueError, OverflowError, IndexError, KeyError):
+                    pass
+                refs = box[1:]
+                res["alloc_calls"] = len(refs)
+                self.weak.append(refs[0] if refs else (lambda: None))
+                self.kind.append("KRaw")
+                self.weak.append(lambda: None)     # the wrapper never reached Python: dead by construction
+                self.kind.append("KGcp")
+                self.calls.setdefault(wi, 0)
             elif t == "OAlias":
                 p = op[1]
                 if self.usable(p) and self.kind[p] == "KStructPtr":
